@@ -130,3 +130,65 @@ func genC10(t *rapid.T) Hist {
 }
 
 func TestC10References(t *testing.T) { h.Run(t, "C10", "sequential", genC10, judgeC10) }
+
+// Constructive search for concatenation ambiguity: one digit string D is cut
+// in two different ways into (SUPI suffix, consumer name, counter); both
+// sessions are created at exactly those counter values (other consumers'
+// creates in between) and kept open.  Whatever separator scheme the product
+// uses, the two references must differ.
+func genAmbiguity(t *rapid.T) Hist {
+	n := rapid.IntRange(2, 5).Draw(t, "len")
+	d := make([]byte, n)
+	for i := range d {
+		d[i] = byte('0' + rapid.IntRange(0, 9).Draw(t, "digit"))
+	}
+	D := string(d)
+	type cut struct{ i, j int }
+	var cuts []cut
+	for i := 0; i <= n && i <= 3; i++ {
+		for j := i; j < n; j++ {
+			c := D[j:]
+			if len(c) > 3 || (len(c) > 1 && c[0] == '0') {
+				continue
+			}
+			cuts = append(cuts, cut{i, j})
+		}
+	}
+	if len(cuts) < 2 {
+		return Hist{Base: true, Subs: []Sub{{Acct: [3]Acct{{1, 1000}, {1, 1000}, {1, 1000}}, Suffix: "1"}}, Ops: []Op{{K: "create", S: 0, Name: "s", UUs: []UU{{RG: 1, Req: 1}}}}}
+	}
+	a := rapid.SampledFrom(cuts).Draw(t, "cutA")
+	b := rapid.SampledFrom(cuts).Draw(t, "cutB")
+	atoi := func(s string) uint64 {
+		var v uint64
+		for _, ch := range s {
+			v = v*10 + uint64(ch-'0')
+		}
+		return v
+	}
+	ca, cb := atoi(D[a.j:]), atoi(D[b.j:])
+	if ca > cb {
+		a, b, ca, cb = b, a, cb, ca
+	}
+	hst := Hist{Base: true, Seq: ca}
+	acct := [3]Acct{{1, 100000}, {1, 100000}, {1, 100000}}
+	hst.Subs = append(hst.Subs, Sub{Acct: acct, Suffix: D[:a.i]})
+	sb := 0
+	if D[:b.i] != D[:a.i] {
+		hst.Subs = append(hst.Subs, Sub{Acct: acct, Suffix: D[:b.i]})
+		sb = 1
+	}
+	hst.Ops = append(hst.Ops, Op{K: "create", S: 0, Name: D[a.i:a.j], UUs: []UU{{RG: 1, Req: 10}}})
+	if cb > ca+1 {
+		hst.Ops = append(hst.Ops, Op{K: "burn", Amt: int64(cb - ca - 1)})
+	}
+	if cb != ca {
+		hst.Ops = append(hst.Ops, Op{K: "create", S: sb, Name: D[b.i:b.j], UUs: []UU{{RG: 1, Req: 10}}})
+		// and use both references
+		hst.Ops = append(hst.Ops, Op{K: "update", S: 0, UUs: []UU{{RG: 1, Req: 10, Conts: []Cont{{Q: "offline", Tot: 1, Pm: -1}}}}},
+			Op{K: "update", S: sb, Sess: 1, UUs: []UU{{RG: 1, Req: 10, Conts: []Cont{{Q: "offline", Tot: 2, Pm: -1}}}}})
+	}
+	return hst
+}
+
+func TestC10Ambiguity(t *testing.T) { h.Run(t, "C10", "ambiguity", genAmbiguity, judgeC10) }
